@@ -92,6 +92,21 @@ def resolve_name(prog: Program, name: str, fn: FunctionInfo):
     """Resolve a bare name used inside ``fn``: ('local', fn_scope) | FunctionInfo | ClassInfo | ('const', owner, name)
     | ('external', dotted) | None."""
     if fn is not None:
+        # function-local imports (`import subprocess` / `from x import y` inside a body) bind like module-level ones
+        for sc in scope_chain(fn):
+            if isinstance(sc.node, ast.Lambda):
+                continue
+            for st in walk_local(sc.node):
+                if isinstance(st, ast.Import):
+                    for a in st.names:
+                        if (a.asname or a.name.split('.')[0]) == name:
+                            return ('external', a.name if a.asname else a.name.split('.')[0])
+                elif isinstance(st, ast.ImportFrom) and st.level == 0 and st.module:
+                    for a in st.names:
+                        if (a.asname or a.name) == name:
+                            d = f'{st.module}.{a.name}'
+                            t = prog.lookup_dotted(d)
+                            return t if t is not None else ('external', d)
         for sc in scope_chain(fn):
             if name in local_names(sc):
                 if name in sc.nested:
